@@ -12,6 +12,8 @@ and the only expression handing it out is `resCache.ShallowClone()`.
 The loader may change arbitrarily between calls (`Call.loader` is per call).
 -/
 import SpecModel.Cache.Lemmas
+import SpecModel.Cache.SideConditions
+import SpecModel.Generated.CacheFacts
 
 namespace SpecModel.Props.C16
 open SpecModel.Cache
@@ -88,5 +90,24 @@ example : (runHistory [G] [(⟨px, Lx "v1", .some 0⟩ : Call String String Stri
 example : ((runHistory [G] [⟨px, Lx "v1", .some 0⟩, ⟨px, Lx "v2", .none⟩]).2.map (·.result)) = ["v1", "v1"] := by decide
 
 end Examples
+
+/-! ### Side conditions on the Go source (regenerated facts, `decide`)
+
+These are the assumptions under which `runHistory` models the package: object 0 (`resCache`) is initialised
+once and afterwards only cloned, never handed out (`NoGlobalArg`); no other package-level variable is
+assigned by the package; every exported entry point clones the caller's options before touching them. -/
+
+open SpecModel.Cache.Side in
+theorem side_pkgVars_present : pkgVarsPresent SpecModel.Gen.pkgVars = true := by decide
+open SpecModel.Cache.Side in
+theorem side_pkgVars_stable : pkgVarsStable SpecModel.Gen.pkgVars = true := by decide
+open SpecModel.Cache.Side in
+theorem side_init_only_once : initOnlyOnce SpecModel.Gen.initCalls = true := by decide
+open SpecModel.Cache.Side in
+theorem side_global_never_escapes : globalNeverEscapes SpecModel.Gen.globalUses = true := by decide
+open SpecModel.Cache.Side in
+theorem side_only_global_cloned : onlyGlobalCloned SpecModel.Gen.cloneCalls = true := by decide
+open SpecModel.Cache.Side in
+theorem side_caller_options_cloned : callerOptionsCloned SpecModel.Gen.optsFlow = true := by decide
 
 end SpecModel.Props.C16
